@@ -90,7 +90,7 @@ func runInChildren(groups []Group, dir string) []Group {
 	writeJSON(in, groups)
 	os.Remove(out)
 	self, _ := os.Executable()
-	done := 0
+	done, deaths := 0, 0
 	results := make([]Group, 0, len(groups))
 	for done < len(groups) {
 		cmd := exec.Command(self, "run", "-in", in, "-out", out, "-from", fmt.Sprint(done))
@@ -132,6 +132,12 @@ func runInChildren(groups []Group, dir string) []Group {
 		f.Close()
 		results = append(results, g)
 		done = len(results)
+		// six groups that killed the runner are six replays: the rest of the run would add waiting time only
+		// (a deadlock costs the watchdog's twenty seconds per group)
+		if deaths++; deaths >= 6 {
+			fmt.Fprintf(os.Stderr, "runner died on %d groups: the remaining %d groups are not run\n", deaths, len(groups)-done)
+			break
+		}
 	}
 	os.Remove(in)
 	return results
